@@ -60,6 +60,21 @@ CHECKS += [
            "quantifier instantiation by z3"),
 ]
 
+CHECKS += [
+ dict(id='C10',
+      text="Proof over the reals for any dt, tf, pfreq, n_damp, max_steps, sorted requested times (vector of unknown "
+           "length with quantified numpy semantics) and ANY positive adaptive proposals: contracts of _damp_timestep, "
+           "_get_solver_data, _get_timestep (landing on tf, restoring a pending shortened step, recorded dt), "
+           "_dump_output_if_needed (dump decision, frame, only shortens, never past a requested time), and the solve "
+           "loop cut with an inductive invariant (t<=tf, dt>0, t+dt<=tf; pre/step/post once per pass in order, t "
+           "strictly increasing, exit => tf reached or max_steps, output first and last). Four genuine defects are open "
+           "known findings.",
+      note="float = R (epsilon tests exact); frames of integrator/callbacks/dump_output assumed; sin axiom for the "
+           "damping factor; termination only via the stated exit condition (arbitrary positive steps need not sum to tf "
+           "without max_steps); 'never past' is proved for requested times pairwise > 2 eps apart and not exactly eps "
+           "from t"),
+]
+
 NOT_APPLICABLE = [
  dict(property_id='C11', reason="round trip runs through numpy.savez/numpy.load/h5py and the compiled ParticleArray constructor; the repository code in between is dict/bytes glue no contract within reach can express (DESIGN.md section 4)"),
  dict(property_id='C12', reason="finite enumeration of scheme options decided by executing scheme code, generating and running; no function-level contract states it (DESIGN.md section 4)"),
@@ -67,7 +82,7 @@ NOT_APPLICABLE = [
 ]
 # properties not yet under a registered check are listed as not applicable
 # "pending" until their check lands, so the manifest is valid at all times
-PENDING = ['C01','C02','C03','C04','C05','C06','C07','C10','C14','C16','C17','C20']
+PENDING = ['C01','C02','C03','C04','C05','C06','C07','C14','C16','C17','C20']
 for p in PENDING:
     if p not in [c['id'] for c in CHECKS]:
         NOT_APPLICABLE.append(dict(property_id=p, reason="check not registered yet in this commit (work in progress, see DESIGN.md section 3 for the planned contracts)"))
